@@ -8,6 +8,9 @@
 (* cfg.mols    : the file, as the sequence of species of its molecules     *)
 (*               (species that are never loaded play the role of solvent)  *)
 (* cfg.order   : the topologies to load, in loading order                  *)
+(* cfg.clones  : topologies whose residue signatures occur in the file but *)
+(*               whose atom names differ from the atoms there: they match  *)
+(*               no run and must be refused without changing anything      *)
 (*                                                                         *)
 (* Abs: after loading the species of a set L the System is the file-       *)
 (* ordered list of [sp, first, n] (first = 0-based residue index, n =      *)
@@ -35,7 +38,7 @@ AbsFrom(c, L, k) == IF k > Len(c.mols) THEN <<>>
                     ELSE (IF c.mols[k] \in L THEN <<[sp |-> c.mols[k], first |-> ResStart(c, k), n |-> Len(Pat(c, c.mols[k]))]>> ELSE <<>>)
                          \o AbsFrom(c, L, k + 1)
 AbsObs(c, L) == AbsFrom(c, L, 1)
-HasInstance(c, s) == \E k \in 1..Len(c.mols) : c.mols[k] = s
+HasInstance(c, s) == s \notin c.clones /\ \E k \in 1..Len(c.mols) : c.mols[k] = s
 
 (* ---- Alg ---------------------------------------------------------------------------------- *)
 Consumed == "-"
@@ -69,7 +72,7 @@ AddTop == /\ pc = "load" /\ nload < Len(cfg.order)
           /\ LET s == cfg.order[nload + 1]
                  pat == Pat(cfg, s)
                  at == FirstOcc(avail, pat) IN
-             IF at = 0
+             IF at = 0 \/ s \in cfg.clones       \* the atom-name check fails before anything is consumed
              THEN /\ obs' = Append(obs, [sp |-> s, ok |-> FALSE, list |-> Instances(cfg, blocks, 1)])
                   /\ UNCHANGED <<avail, blocks, loaded>>
              ELSE LET r == Scan(avail, pat, s, at, TRUE, blocks) IN
